@@ -158,6 +158,8 @@ def _q(s, quote):
 def write(obj, style):
     """style: {"kq": '"'|"'"|"" (unquoted identifier keys), "vq": '"'|"'", "tc": bool, "lit": "json"|"py"|"js-undefined"}"""
     kq, vq, tc, lit = style.get("kq", '"'), style.get("vq", '"'), style.get("tc", False), style.get("lit", "json")
+    sep = "," if style.get("compact") else ", "
+    kv = ":" if style.get("compact") else ": "
     if obj is None:
         return {"json": "null", "py": "None", "js-undefined": "undefined"}[lit]
     if obj is True:
@@ -170,8 +172,8 @@ def write(obj, style):
         q = vq if not (vq == "'" and ("'" in obj or '"' in obj or "\\" in obj)) else '"'
         return _q(obj, q)
     if isinstance(obj, list):
-        inner = ", ".join(write(v, style) for v in obj)
-        return "[" + inner + (", " if tc and obj else "") + "]"
+        inner = sep.join(write(v, style) for v in obj)
+        return "[" + inner + (sep if tc and obj else "") + "]"
     if isinstance(obj, dict):
         parts = []
         for k, v in obj.items():
@@ -181,8 +183,8 @@ def write(obj, style):
                 ks = _q(k, "'")
             else:
                 ks = _q(k, '"')
-            parts.append(ks + ": " + write(v, style))
-        return "{" + ", ".join(parts) + (", " if tc and obj else "") + "}"
+            parts.append(ks + kv + write(v, style))
+        return "{" + sep.join(parts) + (sep if tc and obj else "") + "}"
     raise TypeError(type(obj))
 
 
